@@ -443,6 +443,31 @@ def isolated_prescreen(lines_by_id, group=6, stop_after=10):
     return res
 
 
+# ---- receivers rebound while the arguments of their own method call are evaluated: the method is looked up and bound
+# first, then the arguments run; every method x every kind the variable can be re-assigned to x three ways of re-assigning
+REBIND_METHODS = [("[3,1,2]", "length"), ("[3,1,2]", "push"), ("[3,1,2]", "pop"), ("[3,1,2]", "popfirst"), ("[3,1,2]", "contains"),
+                  ("[3,1,2]", "sort"), ("{\"a\": 1}", "length"), ("{\"a\": 1}", "pluck"), ("\"a,b\"", "length"), ("\"a,b\"", "split"),
+                  ("\"a,b\"", "lower"), ("\"a,b\"", "upper"), ("2.5", "floor"), ("2.5", "ceil"), ("2.5", "round")]
+REBIND_NEW = ["1", "\"s\"", "null", "[9]", "{\"z\": 2}", "true", "/r/", "u_n_s_e_t"]
+
+
+def rebind_cases(rng, quick):
+    out = []
+    for recv, m in REBIND_METHODS:
+        for new in REBIND_NEW:
+            progs = [
+                "BEGIN { r = %s\n print r.%s(r = %s)\n print r\n print \"done\" }" % (recv, m, new),
+                "function set() { r = %s\n return \",\" }\nBEGIN { r = %s\n print r.%s(set())\n print r\n print \"done\" }" % (new, recv, m),
+                "BEGIN { r = %s\n print r.%s(\"a\", r = %s, r)\n print \"done\" }" % (recv, m, new),
+                "function clear() { s = %s }\n{ s = $\n print s.%s(clear())\n print s }" % (new, m),
+                "{ o = {\"k\": $}\n print o.k.%s(o.k = %s)\n print o }" % (m, new),
+            ]
+            pairs = [(prog, ["[%s]" % recv] if k >= 3 else []) for k, prog in enumerate(progs)]
+            for prog, inputs in (pairs if not quick else rng.sample(pairs, 3)):
+                out.append(("rebind", prog, inputs, []))
+    return out
+
+
 def planted_programs():
     """The finite family (a): every control statement x wrapper x rule context, every expression form x context."""
     out = []
@@ -586,6 +611,7 @@ class C01(Check):
                 specs.append(("noinput", prog, inputs, list(rng.choice(SELECTOR_SETS[:5]))))
         specs += recursion_cases(rng, quick, call_depth_limit())
         specs += index_cases(rng, quick)
+        specs += rebind_cases(rng, quick)
         specs += escape_cases(rng, quick)
         specs += diag_cases(rng, quick)
         nrand = 300 if quick else 30000
